@@ -28,4 +28,5 @@ def main(tier):
     chk.run("R-DRIVERFLAGS", R.driverflags, r, floor=4)
     chk.run("R-ASSERTEFFECT", FL.asserteffect, r, floor=100)
     chk.run("R-ENUMCONV", R.enumconv, cx.repo, floor=2)
+    chk.run("R-SERIALFILTER", R.serialfilter, cx.repo, floor=2)
     return chk.finish()
